@@ -152,12 +152,14 @@ int parse_instruction_avr8(AsmContext *asm_context, char *instr)
         if (token_type == TOKEN_NUMBER)
         {
           operands[operand_count].type = OPERAND_REG16_PLUS_Q;
-          operands[operand_count].q = atoi(token);
-          if (operands[operand_count].q < 0 || operands[operand_count].q > 63)
+          // Test the number itself: q is an int8_t, Y+256 used to become Y+0.
+          const int q = atoi(token);
+          if (q < 0 || q > 63)
           {
             print_error_range(asm_context, "Constant", 0, 63);
             return -1;
           }
+          operands[operand_count].q = q;
         }
           else
         {
@@ -183,12 +185,14 @@ int parse_instruction_avr8(AsmContext *asm_context, char *instr)
         if (token_type == TOKEN_NUMBER)
         {
           operands[operand_count].type = OPERAND_REG16_PLUS_Q;
-          operands[operand_count].q = atoi(token);
-          if (operands[operand_count].q < 0 || operands[operand_count].q > 63)
+          // Test the number itself: q is an int8_t, Y+256 used to become Y+0.
+          const int q = atoi(token);
+          if (q < 0 || q > 63)
           {
             print_error_range(asm_context, "Constant", 0, 63);
             return -1;
           }
+          operands[operand_count].q = q;
         }
           else
         {
